@@ -3,6 +3,7 @@
 From Coq Require Import List String ZArith NArith Bool Permutation.
 From Verif Require Import Ast Generated Plan Dist DistProofs.
 Import ListNotations.
+From Verif Require Topk TopkProofs.
 
 (* Whatever the expression, every sub-query the optimizer sends to the remote
    engines consists of selectors under functions, unary/paren/step-invariant
@@ -35,6 +36,27 @@ Print Assumptions C10_count_pushdown.
 Theorem C10_distributive_table : distributive_aggs = ["bottomk"; "count"; "group"; "max"; "min"; "sum"; "topk"]%string.
 Proof. vm_compute. reflexivity. Qed.
 Print Assumptions C10_distributive_table.
+
+
+(* topk / bottomk are pushed down as well: every partition selects its own top k
+   and the coordinator selects the top k of what it receives. With the engine's
+   selection operator (Topk.topk_group) on both levels, the result is a top-k
+   selection of ALL the samples: min(k, n) of them, none strictly worse than a
+   dropped one - for any partition of the series into disjoint parts (empty
+   parts included), any k >= 1, any comparison that is a strict weak order on
+   the numbers with NaN lowest. *)
+Theorem C10_topk_pushdown :
+  forall (V : Type) (lt : V -> V -> bool) (isnan : V -> bool),
+  (forall a b, isnan b = true -> lt a b = false) ->
+  (forall a, lt a a = false) ->
+  (forall a b c, lt a b = true -> lt b c = true -> lt a c = true) ->
+  (forall a b c, isnan c = false -> lt a b = true -> lt a c = true \/ lt c b = true) ->
+  (forall a b : V, {a = b} + {a <> b}) ->
+  forall k (parts : list (list (nat * V))), 1 <= k -> NoDup (map fst (List.concat parts)) ->
+  TopkProofs.is_topk V lt isnan k
+    (Topk.topk_group V lt isnan k (List.concat (map (Topk.topk_group V lt isnan k) parts))) (List.concat parts).
+Proof. exact TopkProofs.topk_pushdown. Qed.
+Print Assumptions C10_topk_pushdown.
 
 (* PARTIAL. Proved: the shape of what is sent to the partitions and the algebra
    of the distributive reductions, for every partitioning. Not proved: the
